@@ -62,7 +62,8 @@ func (t *MLTransport) WriteTo(b []byte, addr string) (time.Time, error) {
 	deliver := func() {
 		n.mu.Lock()
 		ep := n.packetEPs[addr]
-		ok := ep != nil && !ep.zombie && n.linkLocked(t.node, dst, ClassML) == LinkUp && n.alive(t.node, t.inc)
+		// a datagram that left its sender before the sender stopped is still delivered
+		ok := ep != nil && !ep.zombie && n.linkLocked(t.node, dst, ClassML) == LinkUp
 		n.mu.Unlock()
 		if !ok {
 			n.K.Count("net.pkt_undeliverable", 1)
